@@ -14,44 +14,55 @@ theorem send_tx (s : State) (tid : Nat) (b : Bytes) (hc : Bool) (to : SockAddr) 
     t = some tid ∧ tx = ⟨b, s.transport, s.localAddr, to⟩ ∧
     ∃ r, lookup (step s (.sendReq tid b hc to now)).1.out tid = some r ∧ r.bytes = b ∧ r.to = to ∧
       r.hadCreds = hc := by
-  sorry
+  rw [step_sendReq] at h ⊢
+  split at h
+  · cases h
+  · next hn =>
+    cases h
+    rw [if_neg hn]
+    exact ⟨rfl, rfl, _, lookup_insert_self _ _ _, Req.new_bytes _ _ _ _, Req.new_to _ _ _ _,
+      Req.new_hadCreds _ _ _ _⟩
 
 /-- a retransmission produced by `poll` carries the remembered bytes and destination, the agent's
     local address and transport -/
 theorem poll_tx (s : State) (now : Time) (pick : Option Nat) (tid : Option Nat) (tx : Transmit)
     (h : (step s (.poll now pick)).2 = .transmit tid tx) :
     ∃ t r, tid = some t ∧ lookup s.out t = some r ∧ tx = ⟨r.bytes, s.transport, s.localAddr, r.to⟩ := by
-  sorry
+  rcases step_transmit s _ tid tx h with ⟨_, _, _, _, _, e, _⟩ | ⟨_, _, e, _⟩ |
+    ⟨_, _, t, r, _, ht, hl, htx⟩
+  · cases e
+  · cases e
+  · exact ⟨t, r, ht, hl, htx⟩
 
 /-- nothing ever rewrites the remembered bytes or destination of an outstanding request, and the
     agent's transport and local address never change -/
 theorem remembered_fixed (s : State) (op : Op) (tid : Nat) (r r' : Req)
     (hl : lookup s.out tid = some r) (hl' : lookup (step s op).1.out tid = some r') :
     r'.bytes = r.bytes ∧ r'.to = r.to := by
-  sorry
+  rcases step_lookup_some s op tid r' hl' with ⟨r0, hl0, hb, hto, _⟩ | ⟨hnone, _⟩
+  · rw [hl] at hl0
+    cases hl0
+    exact ⟨hb, hto⟩
+  · rw [hl] at hnone
+    cases hnone
 
 theorem endpoint_fixed (s : State) (ops : List Op) :
     (after s ops).transport = s.transport ∧ (after s ops).localAddr = s.localAddr := by
-  sorry
+  exact after_endpoint s ops
 
 /-- only `send` and `poll` produce transmissions -/
 theorem tx_sources (s : State) (op : Op) (t : Option Nat) (tx : Transmit)
     (h : (step s op).2 = .transmit t tx) :
     (∃ tid b hc to now, op = .sendReq tid b hc to now) ∨ (∃ b to, op = .sendOther b to) ∨
     (∃ now pick, op = .poll now pick) := by
-  sorry
+  rcases step_transmit s op t tx h with ⟨tid, b, hc, to, now, e, _⟩ | ⟨b, to, e, _⟩ |
+    ⟨now, pick, _, _, e, _⟩
+  · exact Or.inl ⟨tid, b, hc, to, now, e⟩
+  · exact Or.inr (Or.inl ⟨b, to, e⟩)
+  · exact Or.inr (Or.inr ⟨now, pick, e⟩)
 
-/-- the most recent accepted `send` of a request with id `tid` in a (chronological) trace: its bytes
-    and destination -/
-def origin (tid : Nat) : List (Op × Out) → Option (Bytes × SockAddr)
-  | [] => none
-  | (op, o) :: rest =>
-    match origin tid rest with
-    | some x => some x
-    | none =>
-      match op, o with
-      | .sendReq t b _ to _, .transmit _ _ => if t = tid then some (b, to) else none
-      | _, _ => none
+/-! `origin tid trace` — the bytes and destination of the most recent accepted `send` of a request
+    with id `tid` in a (chronological) trace — is defined in `Spec/Agent.lean`. -/
 
 /-- whole histories: every transmission for a request — the initial one and each retransmission, in
     a history of any length with any other traffic interleaved — carries byte for byte the message
@@ -62,18 +73,29 @@ theorem tx_exact (tr : Transport) (loc : SockAddr) (ops : List Op) (i : Nat) (op
     (h : (trace (State.init tr loc) ops)[i]? = some (op, .transmit (some tid) tx)) :
     ∃ b to, origin tid ((trace (State.init tr loc) ops).take (i + 1)) = some (b, to) ∧
       tx = ⟨b, tr, loc, to⟩ := by
-  sorry
+  obtain ⟨ho, htake⟩ := trace_getElem? _ _ _ _ _ h
+  have hinv := originInv_history tr loc (ops.take i)
+  obtain ⟨b, to, hor, htx⟩ := originInv_transmit hinv op tid tx ho.symm
+  have hep := after_endpoint (State.init tr loc) (ops.take i)
+  rw [hep.1, hep.2] at htx
+  exact ⟨b, to, by rw [htake]; exact hor, htx⟩
 
 /-- `peer_address()` of an outstanding request is the destination given at send time -/
 theorem peer_address_is_destination (tr : Transport) (loc : SockAddr) (ops : List Op) (tid : Nat)
     (a : SockAddr) (h : peerAddress (after (State.init tr loc) ops) tid = some a) :
     ∃ b, origin tid (trace (State.init tr loc) ops) = some (b, a) := by
-  sorry
+  unfold peerAddress at h
+  cases hl : lookup (after (State.init tr loc) ops).out tid with
+  | none => rw [hl] at h; cases h
+  | some r =>
+    rw [hl] at h
+    cases h
+    exact ⟨r.bytes, originInv_history tr loc ops tid r hl⟩
 
 /-- indications and responses are transmitted once, unmodified, and leave no transaction behind -/
 theorem non_request_once (s : State) (b : Bytes) (to : SockAddr) :
     step s (.sendOther b to) = (s, .transmit none ⟨b, s.transport, s.localAddr, to⟩) := by
-  sorry
+  rfl
 
 /-! Non-vacuity: id 1 is used twice with different contents and destinations. -/
 example :
